@@ -621,6 +621,32 @@ func c03Run(c *fw.C, caseID string) {
 					}
 				}
 			}
+			// "seen before" pass: the node verifies the GENUINE block first (and forgets it again: its pool is emptied
+			// without a restart), then is offered the copies that differ only in what the hash does not cover or in the
+			// hash itself. Whatever a node remembers about a block it verified must not vouch for a different block.
+			if bb.block.BlockType == nom.BlockTypeUserSend || bb.block.BlockType == nom.BlockTypeUserReceive {
+				c03KeepVerifier = true
+				if c03Offer(c, N, simnet.CloneBlock(bb.block), bb.kind, "none(genuine, to be remembered)", "raw") {
+					c.Count("seen_before_passes", 1)
+					for _, mu := range muts {
+						switch mu.name {
+						case "Signature-flip", "Signature=empty", "PublicKey=attacker", "PublicKey=garbage", "PublicKey=empty", "Nonce-flip", "Difficulty=1", "FusedPlasma+1", "Data-flip", "Amount+1", "Hash-flip":
+						default:
+							continue
+						}
+						mb := simnet.CloneBlock(bb.block)
+						if !mu.f(mb, env) {
+							continue
+						}
+						if !c03Offer(c, N, mb, bb.kind, mu.name+"(after the genuine block was verified)", "raw") {
+							c03KeepVerifier = false
+							return
+						}
+					}
+				}
+				c03KeepVerifier = false
+				N.Restart()
+			}
 		}
 	}
 	c.Count("honest_blocks_accepted_and_judged_valid", honest)
@@ -780,12 +806,15 @@ func c03Offer(c *fw.C, N *simnet.Node, mb *nom.AccountBlock, kind, mutation, mod
 	// the gossip path ignores a block whose identifier (hash, height) is already pooled: make sure the node does not
 	// hold the honest original of a stale-hash mutant, or "no error" would say nothing about the mutant
 	if N.Chain.GetPatch(mb.Address, mb.Identifier()) != nil {
-		N.Restart()
+		c03WipePool(N)
 	}
 	var err error
 	panicked := ""
 	path := c03Paths[c03PathCounter%len(c03Paths)]
 	c03PathCounter++
+	if c03KeepVerifier && path == "rpc" {
+		path = "gossip" // the RPC entry point builds a fresh supervisor per call: nothing to remember there
+	}
 	var viaRPC *api.AccountBlock
 	if path == "rpc" {
 		// the block as a JSON-RPC client would submit it; a mutant the JSON form cannot carry travels by gossip instead
@@ -850,7 +879,7 @@ func c03Offer(c *fw.C, N *simnet.Node, mb *nom.AccountBlock, kind, mutation, mod
 	if accepted {
 		c.Count("mutants_accepted", 1)
 		// clean N's pool: the pool lives in memory only
-		defer N.Restart()
+		defer c03WipePool(N)
 		if why != "" {
 			c.Violation(fmt.Sprintf("invalid-block-accepted %s-enforcement %s: %s", regime, kind, why), map[string]interface{}{"mutation": mutation, "attacker_model": model, "ingress_path": path,
 				"block_type": mb.BlockType, "address": mb.Address.String(), "height": mb.Height})
@@ -874,6 +903,34 @@ func c03MintData(to types.Address) []byte {
 
 var c03Paths = []string{"gossip", "rpc", "sync"}
 var c03PathCounter int
+
+// c03KeepVerifier: the "seen before" pass — the node's long-lived verifier/supervisor (the one behind the chain bridge)
+// must survive between offers, so the pool is emptied by rolling the last momentum back and inserting it again instead
+// of restarting the node; offers go through the bridge only.
+var c03KeepVerifier bool
+
+func c03WipePool(N *simnet.Node) {
+	if !c03KeepVerifier {
+		N.Restart()
+		return
+	}
+	top := N.Frontier()
+	if top.Height < 3 {
+		N.Restart()
+		return
+	}
+	batch := simnet.CloneBatch(N.Range(top.Height, top.Height))
+	prev, _ := N.Chain.GetFrontierMomentumStore().GetMomentumByHeight(top.Height - 1)
+	ins := N.Chain.AcquireInsert("c03 wipe pool")
+	err := N.Chain.RollbackTo(ins, prev.Identifier())
+	ins.Unlock()
+	if err == nil {
+		_, err = N.InsertChain(batch)
+	}
+	if err != nil || len(N.Chain.GetAllUncommittedAccountBlocks()) != 0 {
+		N.Restart()
+	}
+}
 
 // c03Zenon: zenon.Zenon over a simnet node for the real LedgerApi; the node is its own broadcaster (inserts the
 // transaction the way protocol.broadcaster does).
